@@ -136,6 +136,16 @@ def run_blind_case(ctx, case):
     spy = Spy(A.d)
     pos = 0
     lookahead = case["seed"] % 2 == 0
+    if case["seed"] % 3 == 0 and not A.done():
+        # an earlier (partial or complete) episode without any invalid request, then reset(): the
+        # injections of the judged episode start before its first dispatch
+        for _ in range(rng.randint(1, len(A.ops))):
+            if A.done():
+                break
+            o = rng.choice(A.r.ready()); m = rng.choice(A.r.op_machines[o])
+            A.dispatch(o, m); B.dispatch(o, m)
+        A.d.reset(); A.r.reset(); B.d.reset(); B.r.reset()
+        ctx.count("judged_episode_follows_a_reset")
     while True:
         if lookahead and not A.done() and rng.random() < 0.4:
             # a deep copy of the dispatcher is advanced (look-ahead): what the original accepts and
@@ -198,6 +208,14 @@ def run_dispatcher_case(ctx, case):
     traceA, traceB = [], []
     pos = 0
     nontrivial = 0
+    if case["seed"] % 3 == 0 and not A.done():
+        for _ in range(rng.randint(1, len(A.ops))):
+            if A.done():
+                break
+            o, m = B.choose(rng, "random_ready")
+            A.dispatch(o, m); B.dispatch(o, m)
+        A.d.reset(); A.r.reset(); B.d.reset(); B.r.reset()
+        ctx.count("judged_episode_follows_a_reset")
     while True:
         # ---- inject every kind at this position
         for kind, o, m in invalid_requests(A, rng):
